@@ -81,11 +81,33 @@ def check(prog, ctx):
                         if strip_casts(a).get('ty', '').startswith(ENGINE):
                             if not gp or strip_casts(a).get('name') != gp[0]['name']:
                                 probs.append('%s draws with `%s`' % (g.name, show(a)))
+            # the engine must not be copied on its way to a draw: std::bind and by-value lambda captures store a copy, so the draws
+            # advance the copy and the caller's engine stays where it was
+            if gp:
+                for c in calls(g):
+                    cc = c.get('callee') or {}
+                    q = cc.get('q', '')
+                    if q.startswith('std::') and not cc.get('inrepo'):
+                        direct = [a for a in c.get('args', []) if strip_casts(a).get('k') == 'Ref' and strip_casts(a).get('name') == gp[0]['name']]
+                        if direct and q in ('std::bind', 'std::bind_front', 'std::make_tuple', 'std::make_pair', 'std::thread', 'std::async'):
+                            probs.append('%s hands `%s` to %s, which stores a copy of the engine (std::ref is missing): draws advance the copy, not the caller\'s engine' % (g.name, gp[0]['name'], q))
+                        elif direct and q not in ('std::ref', 'std::forward', 'std::move') and c.get('kind') == 'func':
+                            probs.append('UNDECIDED %s hands `%s` to %s' % (g.name, gp[0]['name'], q))
+                for e in all_exprs(g):
+                    if e.get('k') == 'Lambda':
+                        for cap in e.get('captures', []):
+                            if cap.get('name') == gp[0]['name'] and not cap.get('byref'):
+                                probs.append('%s captures `%s` by value in a lambda: draws inside it advance a copy of the engine' % (g.name, gp[0]['name']))
             for e in all_exprs(g):
                 if e.get('k') == 'Ref' and e.get('rk') == 'global' and not e.get('const') and e.get('q', '').startswith(L) and \
                         (e.get('ty', '').startswith(ENGINE) or '_distribution<' in e.get('ty', '')):
                     probs.append('%s uses the namespace-scope object %s' % (g.name, e['q']))
         probs = sorted(set(probs))
+        und = [p_ for p_ in probs if p_.startswith('UNDECIDED ')]
+        if und and len(und) == len(probs):
+            ctx.undecided('C18.a', '%s/%d' % (fn.name, len(fn.params)), fn, '; '.join(p_[10:] for p_ in und) + ': whether that keeps the caller\'s engine is not known')
+            continue
+        probs = [p_ for p_ in probs if p_ not in und]
         ctx.decide('C18.a', '%s/%d' % (fn.name, len(fn.params)), fn, not probs,
                    'all randomness flows from parameter `%s` (closure of %d functions)' % (ep['name'], len(cl)), '; '.join(probs),
                    witness={'problems': probs} if probs else None)
